@@ -57,7 +57,16 @@ class C11(Prop):
                   "axis is re-checked by the verified checker on every run (tested, not proved)")
     level_note = ("Lean kernel + standard axioms; PQ-tree and CBC/python-mip are contracts exercised at run time; "
                   "hand-written model of the axis test and matrix construction")
-    theorems = []
+    theorems = [
+        "PrefVerif.C11.orderOk_iff",
+        "PrefVerif.C11.isSinglePeakedAxis_iff",
+        "PrefVerif.C11.isSinglePeakedAxis_guard",
+        "PrefVerif.C11.spOnAxis_iff",
+        "PrefVerif.C11.spWitness_iff",
+        "PrefVerif.C11.bruteSP_iff",
+        "PrefVerif.C11.consOnes_iff",
+        "PrefVerif.C11.consOnes_C1P_iff_SP",
+    ]
     rule = ("soc / toc instances with 1-6 alternatives (ties at the top, complete indifference, planted single-peaked "
             "and perturbed profiles); all axes for m <= 4, 6 random axes otherwise; ILP on ~1/6 of the cases; all "
             "four functions on soi/toi for the guards; non-trivial = >= 2 orders and >= 3 alternatives")
